@@ -26,10 +26,16 @@ type Gen struct {
 	Seed uint64
 	// LastSize > 0: the last row has this size instead of Size
 	LastSize int
+	// HeadN > 0: the first HeadN rows have size HeadSize instead of Size
+	HeadN    int
+	HeadSize int
 }
 
 // SizeOf is the size of row i.
 func (g *Gen) SizeOf(i int) int {
+	if i < g.HeadN {
+		return g.HeadSize
+	}
 	if g.LastSize > 0 && i == g.N-1 {
 		return g.LastSize
 	}
